@@ -128,13 +128,16 @@ LIMITS = r"""
 
 * Every theorem is about a model; the tie is differential testing whose strength is the generator's.
   The evidence files print the input distribution of every run.
-* PARTIAL parts (also in MANIFEST notes): C01 unordered channels (integrity + no-duplicate only) and
-  "delivered after healing" (oracle); C02 termination/progress ("drains") beyond the no-deadlock
-  invariant (oracle); C03 "actually connects" (real loop-back pairs); C04 packet protection by
+* PARTIAL parts (also in MANIFEST notes): C01 "delivered after healing" (oracle); C02 the closed loop of
+  two endpoints within bounded time (oracle; sender drainage against an ideal peer and the receiver's
+  answer are theorems); C03 "actually connects" (real loop-back pairs); C04 packet protection by
   libsrtp/OpenSSL (observed); C05 "still up afterwards" and time/memory proportionality (live
-  injection oracle); C09 character-level parsing (validated); C11 frame order, byte identity through
-  the depacketiser, recovery liveness (closed-loop oracle); C13 cross-endpoint statements (oracle;
-  refuted by K4/K9/K10); C15 float filter (oracle input); C19 scheduler fairness step (argued).
+  injection oracle); C06 end-to-end non-interference and recovery over two endpoints (oracle); C09
+  character-level parsing (validated); C11 timestamp mapping and recovery liveness (closed-loop oracle);
+  C13 cross-endpoint statements (oracle; refuted by K4/K9/K10); C15 the float delay filter (its verdict
+  is a universally quantified input; `pow` of libm has no PrimFloat counterpart, so a bit-exact model is
+  out of reach here); C17 reconfiguration sequence numbers (metamorphic oracle); C19 scheduler fairness
+  step (argued).
 * 16-bit SSN window (C01 theorem 5) and 2^31 TSN window (C01 theorem 3) are hypotheses inherent to
   SCTP's serial arithmetic; the code path that keeps arrivals inside 65535 TSNs of the cumulative
   point (`far_ahead`) is modelled and proved not to assert.
